@@ -15,7 +15,7 @@ P == 53248
 X == 16777215
 MC_Adv == {
    H("A", PF_FDCM, 16, 32, FdCm(FC_CTS, 0, X, 1, 1, 0, P)),  H("A", PF_FDCM, 16, 32, FdCm(FC_CTS, 0, X, 2, 2, 0, P)),
-   H("A", PF_FDCM, 16, 32, FdCm(FC_CTS, 0, X, 1, 0, 0, P)), H("A", PF_FDCM, 16, 32, FdCm(FC_CTS, 0, X, 3, 1, 0, P)),  H("A", PF_FDCM, 16, 32, FdCm(FC_CTS, 0, X, 9, 1, 0, P)),
+   H("A", PF_FDCM, 16, 32, FdCm(FC_CTS, 0, X, 1, 0, 0, P)), H("A", PF_FDCM, 16, 32, FdCm(FC_CTS, 0, X, 3, 1, 0, P)), H("A", PF_FDCM, 16, 32, FdCm(FC_CTS, 0, X, 4, 1, 0, P)),  H("A", PF_FDCM, 16, 32, FdCm(FC_CTS, 0, X, 9, 1, 0, P)),
    H("A", PF_FDCM, 16, 32, FdCm(FC_CTS, 0, X, 0, 1, 0, P)),  H("A", PF_FDCM, 16, 32, FdCm(FC_CTS, 9, X, 1, 1, 0, P)),
    H("A", PF_FDCM, 16, 32, FdCm(FC_EOMA, 0, 121, 3, 255, 255, P)), H("A", PF_FDCM, 16, 32, FdCm(FC_EOMA, 9, 121, 3, 255, 255, P)),
    H("A", PF_FDCM, 16, 32, FdCm(FC_ABORT, 0, X, X, 255, 1, P)),
